@@ -41,9 +41,9 @@ class Config:
 
     def cfg_line(self):
         b = lambda x: "1" if x else "0"
-        return ("cfg n=%d L=%d cap=%d head=%s manual=%s payload=%s plans=%s history=%s serial=%s log=%s verbose=%s defines=%s inj=%s"
+        return ("cfg n=%d L=%d cap=%d head=%s manual=%s payload=%s plans=%s history=%s serial=%s log=%s verbose=%s defines=%s inj=%s ptype=%s ctx=%s"
                 % (self.n, self.L, self.cap, b(self.head), b(self.manual), b(self.payload != "none"), b(self.plans), b(self.history),
-                   b(self.serial), b(self.log), b(self.verbose), ",".join(self.defines), ",".join(map(str, self.inj))))
+                   b(self.serial), b(self.log), b(self.verbose), ",".join(self.defines), ",".join(map(str, self.inj)), self.payload, self.ctx))
 
     def key(self):
         return "n%d_L%d_c%d_h%d_m%d_%s_%d%d%d%d%d_%s_%s_%s" % (
